@@ -8,7 +8,8 @@ Class NumOps (T : Type) := {
   nadd : T -> T -> T; nsub : T -> T -> T; nmul : T -> T -> T; ndiv : T -> T -> T;
   nopp : T -> T; nabs : T -> T;
   nltb : T -> T -> bool; nleb : T -> T -> bool; neqb : T -> T -> bool;
-  nofZ : Z -> T }.
+  nofZ : Z -> T;
+  nfloor : T -> Z }.
 
 Declare Scope num_scope.
 Delimit Scope num_scope with num.
@@ -30,7 +31,7 @@ Definition Qeqb (x y : Q) : bool := match Qcompare x y with Eq => true | _ => fa
   n0 := 0%Q; n1 := 1%Q;
   nadd x y := Qred (x + y); nsub x y := Qred (x - y); nmul x y := Qred (x * y);
   ndiv x y := Qred (x / y); nopp x := Qred (- x); nabs x := Qred (Qabs x);
-  nltb := Qltb; nleb := Qleb; neqb := Qeqb; nofZ z := inject_Z z |}.
+  nltb := Qltb; nleb := Qleb; neqb := Qeqb; nofZ z := inject_Z z; nfloor := Qfloor |}.
 
 (** ** R instance *)
 Definition Rltb (x y : R) : bool := if Rlt_dec x y then true else false.
@@ -40,7 +41,7 @@ Definition Reqb (x y : R) : bool := if Req_EM_T x y then true else false.
 #[export] Instance NumR : NumOps R := {|
   n0 := 0%R; n1 := 1%R;
   nadd := Rplus; nsub := Rminus; nmul := Rmult; ndiv := Rdiv; nopp := Ropp; nabs := Rabs;
-  nltb := Rltb; nleb := Rleb; neqb := Reqb; nofZ := IZR |}.
+  nltb := Rltb; nleb := Rleb; neqb := Reqb; nofZ := IZR; nfloor x := (up x - 1)%Z |}.
 
 Lemma Rltb_true x y : Rltb x y = true <-> (x < y)%R.
 Proof. unfold Rltb; destruct (Rlt_dec x y); split; intros; auto; try discriminate; contradiction. Qed.
@@ -56,8 +57,8 @@ Lemma Reqb_false x y : Reqb x y = false <-> x <> y.
 Proof. unfold Reqb; destruct (Req_EM_T x y); split; intros; auto; try discriminate; contradiction. Qed.
 
 (** unfold the R instance's operations in a goal / hypothesis *)
-Ltac numR := cbn [n0 n1 nadd nsub nmul ndiv nopp nabs nltb nleb neqb nofZ NumR] in *.
-Ltac numQ := cbn [n0 n1 nadd nsub nmul ndiv nopp nabs nltb nleb neqb nofZ NumQ] in *.
+Ltac numR := cbn [n0 n1 nadd nsub nmul ndiv nopp nabs nltb nleb neqb nofZ nfloor NumR] in *.
+Ltac numQ := cbn [n0 n1 nadd nsub nmul ndiv nopp nabs nltb nleb neqb nofZ nfloor NumQ] in *.
 
 (** case analysis on an R comparison appearing in the goal *)
 Ltac case_Rltb x y :=
